@@ -92,3 +92,7 @@ C09 = Prop(
                  "logger::instance() (function-local static) is initialised thread-safely (C++11)"],
     extra_trusted=["translator vlib/extract.py for the *_mt sink bodies"],
 )
+
+C09.rule += (" Sequences of turnstiles among three long-lived threads (turnseq) and chains of turnstiles without a gap (chain: the blocked thread of one "
+             "round is the parked one of the next, so every thread enters while somebody is inside and leaves while somebody waits); the Lean side answers "
+             "these from the mutual-exclusion theorem when the extracted bodies have the proved shape.")
